@@ -39,15 +39,16 @@ Findings on the unchanged tree (families computed from the input):
   git-identical-move-into-new-directory
                                     git: both sides move a file into the same new directory: merge raises
                                     KeyError / ImmortalPendingDeletion (the file can vanish from disk)
-  symlink-loop-becomes-file         THIS has a symlink whose target chain loops (e.g. b -> b), OTHER turns
-                                    it into a file: merge dies with OSError ELOOP (transform._set_mode uses os.stat)
+Repaired in /repo after this check found it (fix: ec61b74, _set_mode os.stat -> os.lstat): THIS has a
+symlink whose target chain loops (b -> b), OTHER turns it into a file: the merge died with ELOOP.  No family
+is attached to it any more; reverting the fix gives a plain VIOLATION (self-test mutant 12).
 
 Mutants this was built against (scratch worktree; caught = oracle violation with a
 concrete triple, plus model mismatch): (1) winner_idx "other" -> index 2;
 (2) _merge_names early return when only name_winner == "this" (moves from OTHER
 lost); (3) _three_way on contents with this/other swapped; (4)
 _merge_executable returning when winner == "other" and not modified (exec flips
-of OTHER lost); (6) _default_other_winner_merge "delete" -> "done" (OTHER's
+of OTHER lost); (12) _set_mode back to os.stat (= fix ec61b74 reverted); (6) _default_other_winner_merge "delete" -> "done" (OTHER's
 deletions lost); (7) contents_pair ignoring symlink targets; (8) _merge_names
 only when changed_content (pure renames lost); (10) Merger.find_base choosing
 this_basis as base; (11) executability = other or this.  Equivalent under the
@@ -80,7 +81,6 @@ TRUSTED = ["text merge of one file changed on both sides is not modelled (T6 com
            "C18.threeWay is the model of _three_way (tied by C18's own T1/T2)"]
 
 F_GITDIR = "git-dir-rename-vs-change-inside"
-F_ELOOP = "symlink-loop-becomes-file"
 F_GITSAME = "git-duplicate-content-rename-detection"
 F_GITNEWDIR = "git-identical-move-into-new-directory"
 ROOT = "ROOT"
@@ -351,7 +351,7 @@ def gen_case(rng, rel, git=False):
 
 
 def symlink_loop_to_file(this, exp):
-    """classifier of the family F_ELOOP: an entry that is a symlink in THIS and must become a file, and
+    """input shape of the repaired ELOOP defect (only counted): an entry that is a symlink in THIS and must become a file, and
     whose link target chain (relative names, followed in THIS) never leaves symlinks: os.stat raises ELOOP"""
     tp = paths_of(this)
     by_path = {p: i for i, p in tp.items()}
@@ -693,12 +693,34 @@ def _run(c):
     return run_case(c)
 
 
+def corpus_cases():
+    """minimised past failures, run first on every run"""
+    out = []
+    # a symlink pointing at itself becomes a file in OTHER (ELOOP in _set_mode before fix ec61b74)
+    base = {ROOT: E(None, "", "d"), "s1": E(ROOT, "b", "l", b"b"), "f2": E(ROOT, "a", "f", b"x\n2\n"),
+            "s3": E(ROOT, "c", "l", b"d"), "s4": E(ROOT, "d", "l", b"c")}
+    other = copy_tree(base)
+    other["s1"] = E(ROOT, "b", "f", b"was link s1\n")
+    other["s3"] = E(ROOT, "c", "f", b"was link s3\n", True)
+    this = copy_tree(base)
+    out.append(dict(fmt="2a", mtype="merge3", via="merger", rel="L2", base=base, this=this, other=other,
+                    exp=copy_tree(other), info=dict(ops=["kind"])))
+    this2 = copy_tree(base)
+    this2["f2"]["content"] = b"x\n2\nedit\n"
+    exp = copy_tree(other)
+    exp["f2"] = dict(this2["f2"])
+    out.append(dict(fmt="2a", mtype="weave", via="mfb", rel="L4", base=base, this=this2, other=copy_tree(other),
+                    exp=exp, info=dict(ops=["kind", "edit"], union_wf=True)))
+    return out
+
+
 def build_cases(ctx, n):
     rng = ctx.rng
-    cases = []
+    cases = corpus_cases()
     rels = ["L1", "L2", "L3", "L4", "L4", "L4", "A5", "T6"]
     k = 0
     tries = 0
+    n += len(cases)
     while len(cases) < n and tries < n * 20:
         tries += 1
         rel = rels[k % len(rels)]
@@ -775,10 +797,9 @@ def evaluate(ctx, c, res, lines, impls, recs):
         ctx.count("excluded:L4-union-not-wf:" + ("conflicts" if res["conflicts"] else "clean") + (":raised" if res["exc"] else ""))
         return
     if res["exc"]:
-        f2 = fam
-        if "Errno 40" in res["exc"] and symlink_loop_to_file(c["this"], c["exp"]):
-            f2 = F_ELOOP
-        ctx.violation(rec, "%s merge raised %s" % (rel, res["exc"]), family=f2)
+        if symlink_loop_to_file(c["this"], c["exp"]):
+            ctx.count("input:symlink-loop-becomes-file")      # repaired (fix: ec61b74); a failure here is a plain violation
+        ctx.violation(rec, "%s merge raised %s" % (rel, res["exc"]), family=fam)
         return
     dump = res["dump"]
     # ---- oracle: the law itself -------------------------------------------
